@@ -377,8 +377,11 @@ func runC04(c *ctx) error {
 		o := &gen.Opts{R: rng, Str: c04Str, Key: c04Key, UntypedExotic: true, MaxGroupDepth: 3, MaxMapSize: 24, Hist: c.res.Hist}
 		var src []byte
 		format := "given"
+		var corp *corpusDoc
 		if c.only != nil {
 			src = c.only
+		} else if corp = c.corpusAt(i, 2); corp != nil {
+			src, format = []byte(corp.Document), "regression-corpus"
 		} else {
 			doc := o.Pipeline()
 			if i%40 == 7 {
@@ -408,6 +411,12 @@ func runC04(c *ctx) error {
 		if c.only != nil && c.onlyEnv != nil {
 			runtime = map[string]string{}
 			for k, v := range c.onlyEnv {
+				runtime[k] = v
+			}
+		}
+		if corp != nil && corp.Env != nil && i%2 == 0 {
+			runtime = map[string]string{}
+			for k, v := range corp.Env {
 				runtime[k] = v
 			}
 		}
